@@ -43,6 +43,10 @@ def run_case(case, rec, cid):
         z = rnd.choice([(0, 0), (1, 0), (-3, -30), (5, 45), (-11, 0)])
         probes.append(("member", p.to_time_zone(TimeZone(hours=z[0], minutes=z[1]))))
         probes.append(("member", rnd.choice([p.to_week_date, p.to_ordinal_date, p.to_calendar_date])()))
+        if not float(p.second_of_minute).is_integer():
+            probes.append(("near", p + Duration(seconds=0.5)))
+            probes.append(("near", p - Duration(seconds=0.75)))
+            continue
         kw = dict(year=p.year, hour_of_day=int(p.hour_of_day), minute_of_hour=int(p.minute_of_hour), second_of_minute=int(p.second_of_minute))
         if p.get_is_calendar_date():
             kw.update(month_of_year=p.month_of_year, day_of_month=p.day_of_month)
@@ -99,6 +103,9 @@ def expand(job):
         desc = recur.rand_recurrence(rnd, m, whole_anchor=True, maxn=rnd.choice([5, 6, 8]))
         while recur.known_class(desc) or recur.float_class(desc):     # those series are C12's business (known findings there)
             desc = recur.rand_recurrence(rnd, m, whole_anchor=True, maxn=rnd.choice([5, 6, 8]))
+        if rnd.random() < 0.2 and desc["fmt"] == 3 and desc["a"]["prec"] == "hms" and recur.is_exact(desc["d"]) \
+                and not any(desc["d"].get(k_) for k_ in ("mi", "s")) and any(desc["d"].values()):
+            desc["a"] = dict(desc["a"], dec=rnd.choice(["5", "75", "25"]))      # dyadic fraction: float arithmetic stays exact
         yield {"mode": sp, "rec": desc, "seed": rnd.randrange(10 ** 9)}
 
 
